@@ -1051,7 +1051,7 @@ def parse_refusals(ctx, rule):
     ctx.floor('%s refusals of Message.parse (header, checksum)' % rule, n, 2, rule=rule)
 
 
-def check_header(ctx, esc):
+def check_header(ctx, esc, rule='W2'):
     prog = ctx.prog
     c = prog.cls(M + 'Message')
     pf, tb = c.lookup('parse'), c.lookup('to_bytes')
@@ -1144,8 +1144,8 @@ def check_header(ctx, esc):
                 bad = bad or ('stray', stray, got)
     except (tq.NoValue, KeyError, Exception) as ex:
         bad = ('cannot evaluate', str(ex)[:80])
-    ctx.check(bad is None, 'W2', 'IKE header flags: R = 0x20, V = 0x10, I = 0x08 on encode and decode for all 8 combinations, other bits ignored',
-              key=('W2', 'header-flags'), site=ctx.site(tb, tb.node), detail={'counterexample': bad})
+    ctx.check(bad is None, rule, 'IKE header flags: R = 0x20, V = 0x10, I = 0x08 on encode and decode for all 8 combinations, other bits ignored',
+              key=(rule, 'header-flags'), site=ctx.site(tb, tb.node), detail={'counterexample': bad})
     bad = None
     try:
         for mj in range(16):
@@ -1163,11 +1163,11 @@ def check_header(ctx, esc):
                     bad = bad or (mj, mn, enc, dmj, dmn)
     except (tq.NoValue, KeyError, Exception) as ex:
         bad = ('cannot evaluate', str(ex)[:80])
-    ctx.check(bad is None, 'W2', 'IKE header version: major in the high nibble, minor in the low nibble, both directions (256 cases)',
-              key=('W2', 'header-version'), site=ctx.site(tb, tb.node), detail={'counterexample': bad})
+    ctx.check(bad is None, rule, 'IKE header version: major in the high nibble, minor in the low nibble, both directions (256 cases)',
+              key=(rule, 'header-version'), site=ctx.site(tb, tb.node), detail={'counterexample': bad})
     buf = E.ret()
     ok = header_length_form(E, buf) is not None
-    ctx.check(ok, 'W2', 'IKE header length (offset 24) = total length of the message that is returned', key=('W2', 'header-length'),
+    ctx.check(ok, rule, 'IKE header length (offset 24) = total length of the message that is returned', key=(rule, 'header-length'),
               site=ctx.site(tb, tb.node))
 
 
